@@ -57,7 +57,7 @@ def main():
         src = open(p).read()
         if edits is None:
             a = src.index("    pub fn take(&mut self) -> Self {\n        Self {\n            distinct:")
-            b = src.index("    }\n", src.index("index_hints: std::mem::take(&mut self.index_hints),")) + 6
+            b = src.index("        }\n    }\n", a) + len("        }\n    }\n")
             src2 = src[:a] + "    pub fn take(&mut self) -> Self {\n        std::mem::take(self)\n    }\n" + src[b:]
         else:
             if any(o not in src for o, _ in edits):
